@@ -135,8 +135,8 @@ def run_unit(tpl_path, rlimit=None, keep_dir=None, extra_args=(), timeout=900):
     with open(f, "w") as fh:
         fh.write(gen_src)
     cmd = ["verus", f, "--output-json", "--time-expanded", "--multiple-errors", "8", "--error-format=json"]
-    if rlimit:
-        cmd += ["--rlimit", str(rlimit)]
+    # head-room: the heaviest function (set_config_no_verification: 8 independent `if let`s) uses about half of Verus' default budget of 10
+    cmd += ["--rlimit", str(rlimit or 30)]
     cmd += list(extra_args)
     res["verus_cmd"] = " ".join(cmd[:1] + ["<rendered %s.rs>" % unit] + cmd[2:])
     try:
